@@ -374,9 +374,24 @@ def build_file(chunks, comp_type=0, hash_type=1, chunk_hash_type=3, flags=0, lev
         entries.append(e)
     body = b"".join(stored)
     dd = bytes(DIGEST_SIZE[hash_type]) if flags & 4 else digest(hash_type, body)
+    pad = kw.pop("pad", 0)
     hdr = build_header(hash_type=hash_type, chunk_hash_type=chunk_hash_type, flags=flags, comp_type=comp_type,
                        entries=entries, data_digest=dd, **kw)
+    if pad:
+        return pad_header(hdr + body, pad), stored
     return hdr + body, stored
+
+
+def pad_header(buf, n, fill=b"\0"):
+    """A legal but unusual layout: the header length stored in the lead is n bytes larger than the preface, index and
+    signature sections need (the extra bytes follow the signatures and are covered by the header checksum).  The data
+    then starts at lead + stored header length, not at the end of the parsed sections."""
+    h = parse_header(buf)
+    if n <= 0 or h.lead_size is None:
+        return buf
+    lead = bytes(buf[:5]) + ci_enc(h.hash_type) + ci_enc(h.header_length + n) + bytes(h.header_digest)
+    out = lead + bytes(buf[h.lead_size:h.hdr_total]) + (fill * n)[:n] + bytes(buf[h.hdr_total:])
+    return reseal(out)
 
 
 def reseal(buf):
@@ -406,5 +421,11 @@ def rebuild_from_parse(p, buf, **override):
               sig_count=p.sig_count)
     if p.flags & 2:
         kw["opt"] = {"elems": [(oid, None, od) for (oid, od) in p.opt]}
+    keep_pad = override.pop("keep_pad", True)
     kw.update(override)
-    return build_header(**kw) + bytes(buf[p.hdr_total:])
+    out = build_header(**kw) + bytes(buf[p.hdr_total:])
+    if keep_pad and getattr(p, "unused", 0) and p.ok:
+        padded = pad_header(out, p.unused)          # keep an unusual layout (padded header) through the rewrite
+        if padded is not None:
+            out = padded
+    return out
